@@ -266,6 +266,7 @@ type Exec struct {
 	caller AV
 	traceReturns bool
 	cli    bool // interpreting cmd/jpgo: library calls are modelled, not inlined
+	onExit func(status AV, h *Heap, p pathInfo) // os.Exit in the command (J-ABS)
 	pendingFV []AV // captured variables for the function literal about to be entered
 	ord    func(a, b prov) (int, bool) // order hypothesis on tagged numbers/strings (rule K-ORDER): -1, 0, +1
 	cliGlobals map[string]string // package-level variables of the command initialised to os.Stdout / os.Stderr / os.Stdin
@@ -608,6 +609,10 @@ func (x *Exec) toIface(v AV, T types.Type, h *Heap) AV {
 	case 'N':
 		out.atoms = AOther
 		out.n, out.nk = v.n, v.nk
+	case 'A':
+		// the address of a field or element (&s.data) handed on as interface{}
+		out.atoms = APtr
+		out.obj, out.idx, out.what = v.obj, v.idx, "boxed-addr"
 	default:
 		if types.Identical(T, x.c.A.ExpRefT) {
 			out.atoms = AExpref
